@@ -1250,7 +1250,8 @@ func handleAction(c *webClient, a any) error {
 	case permissionsChangedAction:
 		g := c.Group()
 		if g == nil {
-			return errors.New("Permissions changed in no group")
+			// the client has left the group in the meantime
+			return nil
 		}
 		perms := append([]string(nil), c.permissions...)
 		status := g.Status(true, nil)
